@@ -61,6 +61,11 @@ func (p Parser) HandleRawSQLQuery(sql string) (normalizedQuery, redactedQuery st
 	if err != nil {
 		return "", "", nil, ErrQuerySyntaxError
 	}
+	if _, notParsed := stmt.(NotParsedStatement); notParsed {
+		// the parse error was tolerated (ModeDefault): there is no tree whose values could be hidden,
+		// and the text of the statement must not be handed out as its redacted form (callers log it)
+		return "", "", stmt, ErrQuerySyntaxError
+	}
 	outputStmt, _ := p.Parse(sqlStripped)
 
 	normalizedQ := String(stmt)
